@@ -28,6 +28,7 @@ type Reg struct {
 	Query   []string `json:"query"`
 	Form    Form     `json:"form"`
 	Ret     string   `json:"ret"`
+	Where   string   `json:"where"` // "" statement of routes() | closure (inside a function literal passed to a method) | block (inside an if)
 }
 
 // Dims are the dimension value sets exported by HttpApiModel.tla.
@@ -39,6 +40,7 @@ type Dims struct {
 	Queries  [][]string `json:"queries"`
 	Forms    []Form     `json:"forms"`
 	Rets     []string   `json:"rets"`
+	Wheres   []string   `json:"wheres"`
 }
 
 func ParseDims(rec map[string]any) (*Dims, error) {
@@ -59,6 +61,12 @@ func (d *Dims) RandomFile(rng *rand.Rand, n int, noPointerInput bool) []Reg {
 	for i := 0; i < n; i++ {
 		r := Reg{Verb: d.Verbs[rng.Intn(len(d.Verbs))], Path: d.Paths[rng.Intn(len(d.Paths))], Handler: d.Handlers[rng.Intn(len(d.Handlers))],
 			Input: d.Inputs[rng.Intn(len(d.Inputs))], Query: d.Queries[rng.Intn(len(d.Queries))], Form: d.Forms[rng.Intn(len(d.Forms))], Ret: d.Rets[rng.Intn(len(d.Rets))]}
+		if len(d.Wheres) > 0 && rng.Intn(3) == 0 {
+			r.Where = d.Wheres[rng.Intn(len(d.Wheres))]
+			if r.Where == "stmt" {
+				r.Where = ""
+			}
+		}
 		if noPointerInput && r.Input == "ptr" {
 			r.Input = "struct"
 		}
@@ -258,15 +266,25 @@ func Render(id int, regs []Reg) (files map[string]string, source string) {
 			h = "func(c echo.Context) error {\n" + strings.ReplaceAll(body(r), "\n\t", "\n\t\t") + "\t}"
 			h = strings.Replace(h, "{\n\t", "{\n\t\t", 1)
 		}
+		open, close := "\t", ""
+		switch r.Where {
+		case "closure":
+			open, close = "\tct.secured(func() {\n\t\t", "\t})\n"
+		case "block":
+			open, close = "\tif len(pkgConst) > 0 {\n\t\t", "\t}\n"
+		}
 		if r.Verb == "Static" {
-			fmt.Fprintf(&calls, "\te.Static(%s, \"assets\")\n", pathExpr(r.Path))
+			fmt.Fprintf(&calls, "%se.Static(%s, \"assets\")\n%s", open, pathExpr(r.Path), close)
 			if r.Handler == "literal" || r.Handler == "importedfunc" || r.Handler == "importedmethod" {
 				continue
 			}
 			// the declared handler stays unused: register nothing for it
 			continue
 		}
-		fmt.Fprintf(&calls, "\te.%s(%s, %s)\n", r.Verb, pathExpr(r.Path), h)
+		if r.Where != "" {
+			h = strings.ReplaceAll(h, "\n\t", "\n\t\t")
+		}
+		fmt.Fprintf(&calls, "%se.%s(%s, %s)\n%s", open, r.Verb, pathExpr(r.Path), h, close)
 	}
 	src := fmt.Sprintf(`package %s
 
@@ -306,6 +324,7 @@ var _ = fmt.Sprint
 func QueryParamInt[T ~int64](echo.Context, string) (T, error) { return 0, nil }
 func (controller) QueryParamInt64(echo.Context, string) int64 { return 0 }
 func (controller) QueryParamBool(echo.Context, string) bool   { return false }
+func (controller) secured(register func())                    { register() }
 func FormValueJSON(echo.Context, string, any) error           { return nil }
 
 %sfunc routes(e *echo.Echo, ct controller, ctp *controller, ct2 inner.Controller) {
